@@ -252,6 +252,44 @@ def check_dupkeys(ld, vals, how, reverse, res):
                 return
 
 
+RAISED_BY_KEY_FN = (ValueError, StopIteration, IndexError, KeyError, TypeError,
+                    AssertionError, NotImplementedError)
+
+
+def check_raising_key(ld, n, pos, exc_type, op, backing, res):
+    """The key / group function raises for one example: sort / groupby report
+    an error - they never return a result that lacks examples."""
+    case = {'op': f'{op}-with-raising-function', 'n': n, 'raises_at': pos,
+            'exception': exc_type.__name__, 'backing': backing}
+    res.case(('raisingkey', n, pos, exc_type.__name__, op, backing), n >= 2)
+    exs = [{'id': i, 'v': (i * 7) % 5} for i in range(n)]
+    ds = ld.new({key_of(i, n): e for i, e in enumerate(exs)}) if backing == 'dict' \
+        else ld.new(exs)
+    raised = []
+
+    def fn(e):
+        if e['id'] == pos:
+            err = exc_type(('key-fn', pos))
+            raised.append(err)
+            raise err
+        return e['v']
+    try:
+        if op == 'sort':
+            out = list(ds.sort(fn))
+        elif op == 'sort-mapped':
+            out = list(ds.map(lambda e: dict(e)).sort(fn, reverse=True))
+        else:
+            out = [e for g in ds.groupby(fn).values() for e in g]
+    except BaseException as e:
+        res.count('errors_of_key_functions_reported')
+        res.seen('key_function_error_surfaced_as', f'{exc_type.__name__}->{type(e).__name__}')
+        return
+    res.violation('sort-not-a-permutation' if op.startswith('sort')
+                  else 'groups-not-a-partition', case,
+                  {'returned_ids': [e['id'] for e in out], 'key_function_raised': bool(raised)},
+                  sig={'op': op, 'error_path': True})
+
+
 def check_custom_sort_fn(ld, vals, reverse, res):
     case = {'op': 'sort_fn', 'vals': list(vals), 'reverse': reverse}
     res.case(('sort_fn', tuple(vals), reverse), len(vals) >= 2)
@@ -409,6 +447,7 @@ def shards(tier, seed):
                         'upstream': up, 'backing': backing, **lim})
     out.append({'name': 'keyless', 'what': 'keyless', **lim})
     out.append({'name': 'dupkeys', 'what': 'dupkeys', **lim})
+    out.append({'name': 'raisingkey', 'what': 'raisingkey', **lim})
     out.append({'name': 'sortfn', 'what': 'sortfn', **lim})
     return out
 
@@ -444,6 +483,13 @@ def run_shard(spec, res):
             for idkind in ('int', 'none-mixed'):
                 check_groupby(ld, vals, spec['backing'], spec['upstream'], idkind, res)
                 res.count('large_groupbys_checked')
+    elif spec['what'] == 'raisingkey':
+        for n in range(1, L + 1):
+            for pos in range(n):
+                for exc_type in RAISED_BY_KEY_FN:
+                    for op in ('sort', 'sort-mapped', 'groupby'):
+                        for backing in ('dict', 'list'):
+                            check_raising_key(ld, n, pos, exc_type, op, backing, res)
     elif spec['what'] == 'dupkeys':
         for n in range(0, L):
             for vals in itertools.product((0, 1, 2), repeat=n):
@@ -492,6 +538,10 @@ def replay(case, res):
         check_sort(ld, case['vals'], case['backing'], case['upstream'], case['reverse'], res)
     elif op == 'sort_fn':
         check_custom_sort_fn(ld, case['vals'], case['reverse'], res)
+    elif op.endswith('-with-raising-function'):
+        check_raising_key(ld, case['n'], case['raises_at'],
+                          {t.__name__: t for t in RAISED_BY_KEY_FN}[case['exception']],
+                          op[:-len('-with-raising-function')], case['backing'], res)
     elif op == 'sort-over-shared-keys':
         check_dupkeys(ld, case['vals'], case['how'], case['reverse'], res)
     elif op == 'sort-keyless':
